@@ -351,6 +351,29 @@ def model_frame(c, h=None):
 class CreateVariables(Contract):
     name = "ORToolsSolver._create_variables"
     properties = ("C03",)
+    @property
+    def ghost_after(self):
+        def step(c, st):
+            # ghost assertions (proved, then used) staging the preservation of `created-so-far`: the operation just
+            # handled satisfies the clause; the operations handled earlier still do
+            h0, h, s, I = c.h0, st.heap, c["self"], c["instance"]
+            S0, S = Sol(h0, s), Sol(h, s)
+            it = Inst(h0, I)
+            j0, i = c.eng.loop_stack[-2], c.eng.loop_stack[-1]
+            o = st.env["operation"].t
+            k = it.cumL(j0) + i
+            T = total(h, I)
+            n0, nv0, lower = S0.store.n, h0.get("$nvars", S0.M), S0.M
+            new = z3.And(o == it.op(j0, i), S.has(o), h.at(S.keys, k) == o,
+                         var_ok(h, S.M, S.sv(o), T, lower), var_ok(h, S.M, S.ev(o), T, lower),
+                         h.get("$vidx", S.sv(o)) == nv0 + 2 * k, h.get("$vidx", S.ev(o)) == nv0 + 2 * k + 1,
+                         S.store.is_rec(n0 + k, EQ, S.ev(o), S.sv(o), it.dur(o)))
+            c.eng.oblige(st, "loop1:step:the-operation-just-handled-has-its-variables", new, "ghost-assert")
+            st.assume(new, "step-new")
+            old = vars_created(h, s, I, n0, nv0, lower, j0, i)
+            c.eng.oblige(st, "loop1:step:earlier-operations-keep-theirs", old, "ghost-assert")
+            st.assume(old, "step-old")
+        return {"self.model.Add(end_var == start_var + operation.duration)": step}
     params = {"self": REF("ORToolsSolver"), "instance": REF("JobShopInstance")}
 
     def requires(self, c):
